@@ -295,6 +295,13 @@ def check_C14(run):
         else:
             budget = int(f[1]) if fen.split(" ")[1] == "w" else int(f[2])
         if d.get("ms") is None or d["ms"] > budget + 250:
+            # a scheduling hiccup is not a violation: only a budget overrun that repeats three times in a row counts
+            again = []
+            for _ in range(2):
+                o2, _ = vlib.run_impl([rq])
+                again.append(parse_search(o2[0]).get("ms"))
+            if any(x is not None and x <= budget + 250 for x in again):
+                continue
             nv += 1
             run.violation("time-budget", f"answered after {d.get('ms')} ms with a budget of {budget} ms", {"request": rq, "implementation": a})
     # node limits that coincide with the node count at the end of an iteration k >= 2: that iteration must not be reported
